@@ -764,6 +764,7 @@ class Attack:
 
     def __init__(self, kind, pos, k, rng, circuit, other=None):
         self.kind, self.pos, self.k, self.rng = kind, pos, k, rng
+        self.variant = None         # set by the scenario: its seed number (deterministic choice among variants)
         self.circuit, self.other = circuit, other
         self.fired = 0
         self.stash = []          # callables that release a withheld answer
@@ -915,7 +916,10 @@ class Attack:
             if es is None:
                 return [payload]
             # truncated item / an item that is no public key / no list at all
-            junk = self.rng.choice([b"\x02\x00\x09abc", b"\x01\x00\x03abc", b""])
+            # (one variant per scenario seed, so that every run covers all three: seed C08h only shows with the
+            # second - the list unpacks and send_extend raises on the entry, after the hop was added)
+            junks = [b"\x02\x00\x09abc", b"\x01\x00\x03abc", b""]
+            junk = junks[self.variant % 3] if self.variant is not None else self.rng.choice(junks)
             base["cands"] = es.hop.keys.encrypt_str(junk, 0)
             return [mk(base)]
         outs = self.mutate(net, base)
@@ -1162,6 +1166,7 @@ async def scenario(spec, base_seed, sweep=None):
             return net, None, info
         atk = Attack(kind, pos, k, rng, c1, c2)
         atk.victim = victim
+        atk.variant = spec[4] if len(spec) > 4 and isinstance(spec[4], int) else None
         net.attack = atk
         if sweep is not None:
             net.net.filter = sweep
